@@ -216,14 +216,20 @@ def bh_oracle(ps):
     return out
 
 
+def close(a, b, tol=1e-9):
+    """Equality up to the rounding of concrete float coefficients in the code (e.g. 4/3 as a double)."""
+    d = a - b
+    return And(d <= tol, -d <= tol) if isinstance(d, Sym) else abs(d) <= tol
+
+
 def h_bh(ctx, n):
     ps = [ctx.real(f"p{i}", 0, 1) for i in range(n)]
     got = list(bintest.p_adjust_bh(obj_col(ps)))
     ctx.observe("q", got)
     want = bh_oracle(ps)
     for g, w, p in zip(got, want, ps):
-        ctx.claim(approx(g, w), "p_adjust_bh equals the Benjamini-Hochberg step-up adjustment")
-        ctx.claim(And(g >= p - 1e-12, g <= 1), "adjusted p lies in [p, 1]")
+        ctx.claim(close(g, w), "p_adjust_bh equals the Benjamini-Hochberg step-up adjustment")
+        ctx.claim(And(g >= p - 1e-9, g <= 1), "adjusted p lies in [p, 1]")
     ctx.cover("ties", Or(*[ps[i] == ps[j] for i in range(n) for j in range(i + 1, n)]) if n > 1 else False)
     ctx.cover("capped at 1", Or(*[g == 1 for g in got]))
 
